@@ -62,6 +62,7 @@ F_LIB = "join/src/lib.rs"
 F_UNIT = "join_impl/src/parse/unit.rs"
 F_CHAIN = "join_impl/src/action_expr_chain/mod.rs"
 F_JMOD = "join_impl/src/join/mod.rs"
+F_GD = "join_impl/src/chain/group/group_determiner.rs"
 
 PARSE_STREAM_ENSURES = [
     # the next group comes from the unit parser (parse_until): whatever that one promises about it
@@ -1025,6 +1026,7 @@ def builder_units():
     u = []
     u.append(ty(F_UNIT, "Unit", subst=[{"find": "<T: Clone + Debug, N: Clone + Debug>", "replace": "<T, N>", "why": "derive bounds are irrelevant to the data layout"}]))
     u.append(raw("prelude_syn", _read("prelude_syn.rs")))
+    u.append(raw("opaque_group_determiner", "#[verifier::external_body]\npub struct GroupDeterminer { _p: () }\n"))
     u.append(ty(F_CHAIN, "ActionExprChain"))
     u.append(ty(F_BUILDER, "ActionExprChainBuilder"))
     u.append(raw("specs_builder", _read("specs_builder.rs")))
@@ -1149,7 +1151,21 @@ def parse_units():
     u = []
     u.append(ty(F_UNIT, "Unit", subst=[{"find": "<T: Clone + Debug, N: Clone + Debug>", "replace": "<T, N>", "why": "derive bounds are irrelevant to the data layout"}]))
     u.append(raw("prelude_syn", _read("prelude_syn.rs")))
+    u.append(raw("fn_ptr_opaque", "#[verifier::external_body]\npub struct FnPtrOpaque { _p: () }\n"))
+    u.append(ty(F_GD, "GroupDeterminer", subst=[{"find": "CheckStreamFnPointer", "replace": "FnPtrOpaque", "why": "A11: the fn-pointer union (unsafe) is outside every contract, its field becomes an opaque value; check_input / erase_input stay external"}]))
     u.append(raw("specs_parse", _read("specs_parse.rs")))
+    # the determiner's own methods (real bodies) and the validity test they rest on
+    u.append(fns(F_UTILS, [
+        fn("is_valid_stream", "r", ensures=["r == valid_stream::<T>(input@)"],
+           subst=[{"find": "syn::parse2::<T>(input)", "replace": "parse2::<T>(input)", "why": "path to the prelude's external `parse2`"}]),
+    ]))
+    u.append(fns(F_GD, [
+        fn("combinator", "r", ensures=["r == self.comb()"]),
+        # C14: an operand is complete iff syn can parse what was collected as a T - nothing cheaper, nothing more
+        fn("check_parsed", "r", ensures=["r == self.parsed_ok::<T>(input@)"]),
+        fn("len", "r", ensures=["r == self.length"]),
+        fn("is_empty", "r", ensures=["r == (self.length == 0)"]),
+    ], self_ty="GroupDeterminer"))
     u.append(fns(F_AG, [
         # ASSUMED (generic unit parsers behind `parse_n_or_empty_unit_fn!`): result tied to the R9 tables
         fn("parse_action_expr", "r", mode="assumed", ensures=[
@@ -1385,7 +1401,7 @@ OBLIGATIONS = {
             ("gen", "JoinOutput::wrap_last_step_stream"), ("gen", "JoinOutput::process_step_action_expr"),
             ("gen", "JoinOutput::generate_def_and_step_streams"), ("gen", "JoinOutput::expand_process_expr"),
             ("core", "ProcessExpr::to_tokens")],
-    "C14": [("parse", "ParseUntil::scan_step"), ("parse", "parse_until_suffix"), ("det", "lemma_first_match_is_longest"), ("optable", "lemma_operator_tables")],
+    "C14": [("parse", "GroupDeterminer::check_parsed"), ("parse", "is_valid_stream"), ("parse", "GroupDeterminer::combinator"), ("parse", "ParseUntil::scan_step"), ("parse", "parse_until_suffix"), ("det", "lemma_first_match_is_longest"), ("optable", "lemma_operator_tables")],
     "C16": [("top", "join_impl"), ("builder", "JoinInputDefault::parse_option_futures_crate_path"), ("builder", "JoinInputDefault::parse_option_custom_joiner"), ("builder", "JoinInputDefault::parse_option_transpose_results"), ("builder", "JoinInputDefault::parse_option_lazy_branches"), ("builder", "JoinInputDefault::parse_branches"), ("top", "generate_join"), ("top", "jo_into_token_stream"), ("top", "ji_futures_crate_path"), ("top", "ji_branches"), ("top", "ji_handler"), ("top", "ji_joiner"), ("top", "ji_transpose_results_option"), ("top", "ji_lazy_branches_option"), ("top", "JoinOutput::new"), ("gen", "JoinOutput::generate_handle"), ("gen", "JoinOutput::generate_step_branch"), ("steps", "JoinOutput::generate_step_tail"), ("guards", "new_init_lazy_branches"), ("guards", "new_init_transpose")],
     "C17": [("sep", "is_block_expr"), ("sep", "JoinOutput::separate_block_expr_process"), ("sep", "JoinOutput::separate_block_expr_err"), ("sep", "JoinOutput::separate_block_expr_initial"), ("sep", "lemma_sep_step")] + [("names", "lemma_names_never_clash"), ("names", "lemma_names_table"), ("names", "lemma_name3_injective"), ("names", "lemma_name1_injective"), ("names", "lemma_distinguishable"), ("names", "lemma_names_strlits"), ("gen", "JoinOutput::generate_def_and_step_streams")] + [("core", n) for n in ['construct_var_name', 'construct_step_results_name', 'construct_result_name', 'construct_thread_builder_name', 'construct_inspect_fn_name', 'construct_spawn_tokio_fn_name', 'construct_results_name', 'construct_handler_name', 'construct_internal_value_name', 'construct_thread_builder_fn_name', 'construct_expr_wrapper_name']],
     "C20": [("core", n) for n in ['construct_var_name', 'construct_step_results_name', 'construct_result_name', 'construct_thread_builder_name', 'construct_inspect_fn_name', 'construct_spawn_tokio_fn_name', 'construct_results_name', 'construct_handler_name', 'construct_internal_value_name', 'construct_thread_builder_fn_name', 'construct_expr_wrapper_name']],
